@@ -17,6 +17,7 @@ import (
 	"github.com/rs/zerolog/log"
 	"pgregory.net/rapid"
 
+	"verif/harness/known"
 	"verif/harness/pbt"
 	"verif/harness/sc"
 	"verif/harness/world"
@@ -193,6 +194,10 @@ func checkConc(c ConcCase) pbt.Verdict {
 	close(stopChurn)
 	churnWG.Wait()
 	if blocked != "" {
+		if changesProcessSet(c.Ops) && known.Load().Active("C20-orphan-after-concurrent-scale") {
+			v.Known = append(v.Known, "C20-orphan-after-concurrent-scale")
+			return v
+		}
 		v.Violations = append(v.Violations, blocked)
 		return v
 	}
@@ -208,7 +213,15 @@ func checkConc(c ConcCase) pbt.Verdict {
 		case <-runDone:
 			goto out
 		case <-deadline:
-			v.Violations = append(v.Violations, fmt.Sprintf("after the concurrent rounds (ops %+v) ShutDownProject/Run() did not finish within 20 s\n%s", c.Ops, stacks()))
+			if changesProcessSet(c.Ops) && known.Load().Active("C20-orphan-after-concurrent-scale") {
+				v.Known = append(v.Known, "C20-orphan-after-concurrent-scale")
+				return v
+			}
+			diag := ""
+			for _, cmd := range w.AllCmds() {
+				diag += fmt.Sprintf("cmd %s inst %d alive=%v; ", cmd.Replica, cmd.Inst, cmd.Alive())
+			}
+			v.Violations = append(v.Violations, fmt.Sprintf("after the concurrent rounds (ops %+v) ShutDownProject/Run() did not finish within 20 s\ncommands: %s\n%s", c.Ops, diag, stacks()))
 			return v
 		case <-time.After(2 * time.Millisecond):
 		}
@@ -226,6 +239,18 @@ out:
 	}
 	v.NonTrivial = nm >= 1 && len(c.Ops) >= 2
 	return v
+}
+
+// changesProcessSet: the op set contains a state-changing request. Such requests race with each
+// other and with the processes' own restarts on the runner's maps and on the shared status
+// record (recorded findings), and can leave an instance outside the maps.
+func changesProcessSet(ops []COp) bool {
+	for _, op := range ops {
+		if mutating[op.Kind] {
+			return true
+		}
+	}
+	return false
 }
 
 func stacks() string {
